@@ -214,7 +214,7 @@ def handleRun (ws : List String) : String :=
     let perTable (t : Table) (ids : List Int) (msg : String) : List String :=
       Spec.c01 P.msa t msg ++ Spec.c02 P.msa wantFlag t msg ++ Spec.c03 P.t0 P.t8 data ids t ++ Spec.c04 data ids t
     let spec : List String :=
-      (Spec.c05 P.toPrms o ++ Spec.c06 P.toPrms o ++ Spec.c07 P.toPrms o ++
+      (Spec.c05 P.toPrms o ++ Spec.c06 P.toPrms o (tG.map fun g => rawComponents K P data gids g) ++ Spec.c07 P.toPrms o ++
        perTable tS sids (msgs.getD 0 "") ++ perTable tG gids (msgs.getD 1 "") ++ perTable tL lids (msgs.getD 2 "")).map
         ("SPEC " ++ ·)
     let notes : List String :=
